@@ -50,14 +50,25 @@ class GateRule:
     def res_gated(self, path):
         return self.h(path, self.salt) < self.thr
 
+    def list_mode(self, path):
+        return self.h(path, self.salt + 5) % 3          # 0 awaitable items, 1 plain, 2 async iterator
+
     def list_awaitables(self, path):
-        return self.h(path, self.salt + 5) % 2 == 0
+        return self.list_mode(path) == 0
+
+    def step_gated(self, path, k):
+        return self.h(list(path) + [k], self.salt + 17) < self.thr
 
     def item_gated(self, path):
         return self.h(path, self.salt + 11) < self.thr
 
     def wire(self):
         return {"salt": self.salt, "thr": self.thr, "mod": MOD, "num": self.num}
+
+
+def enc_gate(p):
+    """response path of a gate; the k-th step of an async iterator is written path + {"n": k}"""
+    return [({"n": e[1]} if isinstance(e, tuple) else {"s": e} if isinstance(e, str) else {"i": e}) for e in p]
 
 
 def parse_key(key):
@@ -114,9 +125,31 @@ class MRun:
         return later()
 
     def listify(self, path, v):
-        if not isinstance(v, list) or not self.rule.list_awaitables(path):
+        if not isinstance(v, list):
             return v
         run = self
+        if self.rule.list_mode(path) == 2:
+            class AIter:
+                def __init__(self):
+                    self.i = 0
+
+                def __aiter__(self):
+                    return self
+
+                async def __anext__(self):
+                    k = self.i
+                    if run.rule.step_gated(path, k):
+                        await run.gate(list(path) + [("n", k)])
+                    if k >= len(v):
+                        raise StopAsyncIteration
+                    self.i += 1
+                    return v[k]
+
+                async def aclose(self):
+                    pass
+            return AIter()
+        if not self.rule.list_awaitables(path):
+            return v
 
         def item(i, x):
             ip = path + [i]
@@ -180,14 +213,14 @@ def explore(case, rule, op, budget, rng):
         nonlocal count
         r = MRun(case, rule, op)
         count += 1
-        rec = {"initial": [wire.enc_path(list(p)) for p in r.pending()], "steps": [], "readyAfter": 0 if r.ready() else -1}
+        rec = {"initial": [enc_gate(p) for p in r.pending()], "steps": [], "readyAfter": 0 if r.ready() else -1}
         k = 0
         while True:
             pend = r.pending()
             if not pend or r.hang:
                 break
             if k < len(order):
-                g = tuple(order[k])
+                g = tuple(tuple(e) if isinstance(e, list) else e for e in order[k])
                 if g not in pend:
                     r.close()
                     return None, None
@@ -197,7 +230,7 @@ def explore(case, rule, op, budget, rng):
                 break
             r.settle(g)
             k += 1
-            rec["steps"].append({"g": wire.enc_path(list(g)), "pending": [wire.enc_path(list(p)) for p in r.pending()]})
+            rec["steps"].append({"g": enc_gate(g), "pending": [enc_gate(p) for p in r.pending()]})
             if rec["readyAfter"] < 0 and r.ready():
                 rec["readyAfter"] = k
         rest = r.pending()
